@@ -1,15 +1,28 @@
 import BufModel.Cache
+import BufModel.Faults
 import Driver.Util
 import Driver.Bucket
 /-
   Line protocol for C09 (module cache):
-    load <files> <sides> <entry>          files/sides/entry: hexpath=content,... or "-"
+    load <files> <sides> <entry>          files/sides/entry: hexpath=token,... or "-"
                                           (files: paths relative to files/; entry: entry-relative)
         -> miss | mismatch | hit:<sorted module files>
     loadtar <files> <sides> absent|garbage|<entry>
         -> <result>|kept  or  <result>|removed
-    run <files> <sides> <nwriters> <acts>  acts: comma-separated a<w> t<w> f<w> x<w> c<w> k<w> z<w>
-        -> <entry dump>|lock=<w or ->|<pcs>
+    run <files> <sides> <entry> <nwriters> <acts>
+                                          here contents are REAL bytes: hexpath=hexcontent ("-" = empty);
+                                          the value of module.yaml is a marker token.
+                                          payload index = position in <files> followed by <sides>.
+                                          acts: comma-separated  a<w>  t<w>.<i>  g<w>.<i>.<k>  f<w>.<i>
+                                                                 x<w>  c<w>  k<w>  z<w>
+        -> <entry dump, contents hex>|lock=<w or ->|<pcs>
+    storerun <files> <sides> <entry> <faults> <markerfail>
+                                          faults: hexpath:p|w|c:<idx>,... ; markerfail: - or step index
+                                          contents are written in chunks of 16 characters
+        -> err=<0|1>|fired=<n>|<entry dump>
+    tarentry <files> <sides>              -> the entry the tar layout serialises (tokens)
+    tarput <files> <sides> absent|garbage|<entry> <nchunks> ok|fail|crash <k>
+        -> err=<0|1|->|<load result>|kept/removed
     provider <r1> <putok> <r2>            r: miss | hit | mismatch ; putok: 0|1
         -> value:<r> | error
 -/
@@ -23,32 +36,73 @@ def parseObjs (s : String) : Option (List (Str × Content)) :=
     | [k, v] => (hexDecode k).map fun p => (s2l p, if v = "-" then "" else v)
     | _ => none
 
+/-- contents hex-encoded; the marker's value stays a token -/
+def parseObjsHex (s : String) : Option (List (Str × Content)) :=
+  if s = "-" then some [] else
+  (s.splitOn ",").mapM fun kv =>
+    match kv.splitOn "=" with
+    | [k, v] =>
+      (match hexDecode k with
+        | some p =>
+          if s2l p = markerPath then some (s2l p, v)
+          else (hexDecode v).map fun c => (s2l p, c)
+        | none => none)
+    | _ => none
+
+def dumpHex (objs : List (Str × Content)) : String :=
+  dump (objs.map fun (k, v) => (k, if k = markerPath then v else enc v))
+
 def showLoad : LoadResult → String
   | .miss => "miss"
   | .mismatch => "mismatch"
   | .hit fs => "hit:" ++ dump fs
 
+def nat? (s : String) : Option Nat := s.toNat?
+
 def parseAct (s : String) : Option Act :=
   match s.toList with
   | c :: rest =>
-    match (String.ofList rest).toNat? with
-    | some w =>
+    match ((String.ofList rest).splitOn ".").mapM nat? with
+    | some [w] =>
       (match c with
-        | 'a' => some (.acquire w) | 't' => some (.truncate w) | 'f' => some (.fill w)
-        | 'x' => some (.fail w) | 'c' => some (.commit w) | 'k' => some (.commitFail w)
-        | 'z' => some (.crash w) | _ => none)
-    | none => none
+        | 'a' => some (.acquire w) | 'x' => some (.fail w) | 'c' => some (.commit w)
+        | 'k' => some (.commitFail w) | 'z' => some (.crash w) | _ => none)
+    | some [w, i] =>
+      (match c with
+        | 't' => some (.truncate w i) | 'f' => some (.fill w i) | _ => none)
+    | some [w, i, k] => if c = 'g' then some (.grow w i k) else none
+    | _ => none
   | [] => none
 
 def showPc : WPc → String
   | .start => "start"
-  | .writing i t => "writing" ++ toString i ++ (if t then "t" else "")
+  | .writing d f => "writing[" ++ " ".intercalate (d.map toString) ++ "|" ++
+      " ".intercalate (f.map fun ik => toString ik.1 ++ ":" ++ toString ik.2) ++ "]"
   | .finished ok => if ok then "ok" else "err"
   | .crashed => "crashed"
 
 def parseR (s : String) : Option LoadResult :=
   match s with
   | "miss" => some .miss | "hit" => some (.hit []) | "mismatch" => some .mismatch | _ => none
+
+/-- contents are written in pieces of 16 characters (the harness bucket splits every Write) -/
+def chunkChars : Nat → List Char → List Content
+  | 0, _ => []
+  | _, [] => []
+  | fuel + 1, cs => String.ofList (cs.take 16) :: chunkChars fuel (cs.drop 16)
+
+def chunk16 (c : Content) : List Content := chunkChars c.length c.toList
+
+def parseFault (s : String) : Option BufModel.Faults.Fault :=
+  match s.splitOn ":" with
+  | [h, k, i] =>
+    match hexDecode h, i.toNat? with
+    | some p, some idx =>
+      (match k with
+        | "p" => some ⟨s2l p, .put, idx⟩ | "w" => some ⟨s2l p, .write, idx⟩ | "c" => some ⟨s2l p, .close, idx⟩
+        | _ => none)
+    | _, _ => none
+  | _ => none
 
 def handle : List String → String
   | ["load", fs, ss, en] =>
@@ -68,12 +122,54 @@ def handle : List String → String
           showLoad r.1 ++ "|" ++ (if r.2.isSome then "kept" else "removed")
         | none => "bad-op")
     | _, _ => "bad-op"
-  | ["run", fs, ss, n, acts] =>
-    match parseObjs fs, parseObjs ss, n.toNat?, (if acts = "-" then some [] else (acts.splitOn ",").mapM parseAct) with
-    | some f, some s, some nw, some as =>
-      let st := runActs ⟨f, s⟩ { entry := [], lock := none, writers := List.replicate nw .start } as
-      dump st.entry ++ "|lock=" ++ (match st.lock with | some w => toString w | none => "-") ++ "|" ++
+  | ["run", fs, ss, en, n, acts] =>
+    match parseObjsHex fs, parseObjsHex ss, parseObjsHex en, n.toNat?,
+        (if acts = "-" then some [] else (acts.splitOn ",").mapM parseAct) with
+    | some f, some s, some e, some nw, some as =>
+      let st := runActs ⟨f, s⟩ { entry := e, lock := none, writers := List.replicate nw .start } as
+      dumpHex st.entry ++ "|lock=" ++ (match st.lock with | some w => toString w | none => "-") ++ "|" ++
         ",".intercalate (st.writers.map showPc)
+    | _, _, _, _, _ => "bad-op"
+  | ["storerun", fs, ss, en, faults, mf] =>
+    match parseObjsHex fs, parseObjsHex ss, parseObjsHex en,
+        (if faults = "-" then some [] else (faults.splitOn ",").mapM parseFault),
+        (if mf = "-" then some none else mf.toNat?.map some) with
+    | some f, some s, some e, some sched, some mfail =>
+      let exp : Expected := ⟨f, s⟩
+      let r := storeRun BufModel.Faults.Facts.allTrue sched [markerCanonical] mfail ⟨e, []⟩ (fileJobs exp chunk16) (sideJobs exp chunk16)
+      "err=" ++ (if r.1 then "1" else "0") ++ "|fired=" ++ toString r.2.fired.length ++ "|" ++ dumpHex r.2.mem
+    | _, _, _, _, _ => "bad-op"
+  | ["tarentry", fs, ss] =>
+    match parseObjs fs, parseObjs ss with
+    | some f, some s => dump (tarEntry ⟨f, s⟩)
+    | _, _ => "bad-op"
+  | ["tarput", fs, ss, t, nch, mode, ks] =>
+    match parseObjs fs, parseObjs ss, nch.toNat?, ks.toNat? with
+    | some f, some s, some n, some k =>
+      let exp : Expected := ⟨f, s⟩
+      let oldDec : Option (Option (Option Mem)) :=
+        if t = "absent" then some none
+        else if t = "garbage" then some (some none)
+        else (parseObjs t).map fun e => some (some e)
+      (match oldDec with
+        | some od =>
+          let chunks : List Content := (List.range n).map fun i => "c" ++ toString i ++ ";"
+          let old : Option Content := od.map fun _ => "OLD"
+          let decode : Content → Option Mem := fun c =>
+            if c = BufModel.Faults.joinContent chunks then some (tarEntry exp)
+            else if c = "OLD" then (match od with | some o => o | none => none)
+            else none
+          let res : Option (String × BufModel.Faults.ADir) :=
+            if mode = "ok" then let r := tarStore old chunks none; some ((if r.1 then "1" else "0"), r.2)
+            else if mode = "fail" then let r := tarStore old chunks (some k); some ((if r.1 then "1" else "0"), r.2)
+            else if mode = "crash" then some ("-", tarCrash old chunks k)
+            else none
+          (match res with
+            | some (e, dir) =>
+              let lr := loadTar exp (tarView decode dir)
+              "err=" ++ e ++ "|" ++ showLoad lr.1 ++ "|" ++ (if lr.2.isSome then "kept" else "removed")
+            | none => "bad-op")
+        | none => "bad-op")
     | _, _, _, _ => "bad-op"
   | ["provider", r1, ok, r2] =>
     match parseR r1, parseR r2 with
